@@ -27,14 +27,14 @@ import (
 
 func init() {
 	Register(&Property{
-		ID:    "C05",
-		Run:   runC05,
-		Level: "fault_enumeration",
-		Rule:  "runs = generated histories (first start, registration, authorizations incl. conflicts, reports, rotations incl. start-up catch-up); fault space per history = every observation point before/after each persistence write, between create and write of server.keys, every boundary between operations, plus the present-but-empty states of server.keys and gcaPubKey.dat (thorough: all of them; quick: seeded half); each crash point = one disk fork booted twice; evaluations counts runs, crash points are in coverage.crash_points; non-trivial = the run booted at least one fork taken inside an operation; distinct = distinct decision signatures",
-		Real:  []string{"every persistence write path (server.keys, gcaPubKey.dat, equipment-authorizations.dat, equipment-reports.dat, allDeviceStats.dat)", "NewGCAServer recovery path", "registration on the recovered server"},
-		Stub:  []string{"process death (disk fork at a system-call boundary + fresh incarnation)", "socket listeners"},
-		Assumptions: []string{"process-crash model: the kernel keeps completed system calls; power-loss effects (torn or lost writes, fsync ordering) are outside the property and not injected", "each operation performs exactly one persistence write, so the recovered state is exact, not a set"},
-		NotInjected: []string{"torn or lost writes after power loss", "fsync ordering", "disk full / short writes / EIO", "real SIGKILL of an OS process (not replayable; the reachable post-crash disk states are exactly the system-call boundaries enumerated here)"},
+		ID:             "C05",
+		Run:            runC05,
+		Level:          "fault_enumeration",
+		Rule:           "runs = generated histories (first start, registration, authorizations incl. conflicts, reports, rotations incl. start-up catch-up); fault space per history = every observation point before/after each persistence write, between create and write of server.keys, every boundary between operations, plus the present-but-empty states of server.keys and gcaPubKey.dat (thorough: all of them; quick: seeded half); each crash point = one disk fork booted twice; evaluations counts runs, crash points are in coverage.crash_points; non-trivial = the run booted at least one fork taken inside an operation; distinct = distinct decision signatures",
+		Real:           []string{"every persistence write path (server.keys, gcaPubKey.dat, equipment-authorizations.dat, equipment-reports.dat, allDeviceStats.dat)", "NewGCAServer recovery path", "registration on the recovered server"},
+		Stub:           []string{"process death (disk fork at a system-call boundary + fresh incarnation)", "socket listeners"},
+		Assumptions:    []string{"process-crash model: the kernel keeps completed system calls; power-loss effects (torn or lost writes, fsync ordering) are outside the property and not injected", "each operation performs exactly one persistence write, so the recovered state is exact, not a set"},
+		NotInjected:    []string{"torn or lost writes after power loss", "fsync ordering", "disk full / short writes / EIO", "real SIGKILL of an OS process (not replayable; the reachable post-crash disk states are exactly the system-call boundaries enumerated here)"},
 		RequiredProbes: []string{"c05.fork.report.before-write", "c05.fork.report.after-write", "c05.fork.auth.after-write", "c05.fork.stats.before-write", "c05.fork.stats.after-write", "c05.fork.gcakey.before-write", "c05.fork.keys.created", "c05.fork.empty-gcakey", "c05.fork.boundary", "c05.fork.conflict", "c05.register-after-crash"},
 	})
 }
